@@ -83,6 +83,13 @@ Theorem C13_readinto : forall s F, (fuel_for (file_of s) <= F)%nat -> forall st 
 Proof. exact op_readinto. Qed.
 Print Assumptions C13_readinto.
 
+(* readinto(b) with a read-only b: TypeError before anything is read (open or closed), as io.BytesIO *)
+Theorem C13_readinto_readonly : forall fillb F file st,
+  step fillb F file OReadintoRO st = Some (VExc TypeError, st) /\
+  forall D rs, ref_step D OReadintoRO rs = Some (VExc TypeError, rs).
+Proof. exact op_readinto_readonly. Qed.
+Print Assumptions C13_readinto_readonly.
+
 (* seek(k, 0): forwards, backwards (rewind + skip), beyond the end (clamped) *)
 Theorem C13_seek_set : forall s F, (fuel_for (file_of s) <= F)%nat -> forall st rs, Sim s st rs -> rclosed rs = false ->
   forall k, 0 <= k ->
